@@ -264,7 +264,11 @@ class Net:
         self._patch(uuc, "create_connection", self.create_connection)
         self._patch(ut, "time", self.clock)
         self._patch(ur, "time", self.clock)
-        if self.fake_tls:
+        if self.fake_tls == "inner":
+            # keep urllib3's own TLS preparation (context, server_hostname normalisation) and replace only the
+            # innermost wrap: what would be handed to the TLS library is recorded, the socket stays plain
+            self._patch(uc, "ssl_wrap_socket", self._fake_inner_wrap)
+        elif self.fake_tls:
             self._patch(uc, "_ssl_wrap_socket_and_match_hostname", self._fake_tls_wrap)
         import urllib3.connectionpool as ucp
 
@@ -312,6 +316,14 @@ class Net:
                 sock.close()
                 raise act
         return uc._WrappedAndVerifiedSocket(socket=sock, is_verified=True)
+
+    def _fake_inner_wrap(self, sock: typing.Any, **kw: typing.Any) -> typing.Any:
+        st = getattr(sock, "vf", None)
+        self.tls_wraps.append({"conn": getattr(st, "index", None), "server_hostname": kw.get("server_hostname"), "tls_in_tls": kw.get("tls_in_tls"), "inner": True})
+        if st is not None:
+            st.tls = True
+            self._event("tls", st.index, kw.get("server_hostname"))
+        return sock
 
     # -- events ---------------------------------------------------------------------------------
     def _event(self, kind: str, *details: typing.Any) -> None:
